@@ -403,7 +403,8 @@ def run(plugin, tier, seed, replay_path=None):
     # 2. gotables
     ok, out = run_gotables(ctx)
     ctx.stage("gotables")
-    if not ok:
+    gotables_out = out
+    if not ok and "gotables build failed" in out:
         proof_broken = {"kind": "translator", "detail": out[-4000:]}
 
     # 3. build the cone
@@ -419,6 +420,10 @@ def run(plugin, tier, seed, replay_path=None):
                 except OSError:
                     pass
     files = sorted(set(cone(ctx, props_v) + sum([cone(ctx, t[:-1]) for t in targets], [])))
+    for f in files:
+        if f.startswith("gen/") and os.path.exists(os.path.join(ctx.coqdir, f + ".err")):
+            proof_broken = {"kind": "translator", "file": f,
+                            "detail": open(os.path.join(ctx.coqdir, f + ".err")).read()[-2000:] + "\n" + gotables_out[-2000:]}
     obligations = count_obligations(ctx, files)
     cov["obligations"] = len(obligations)
     cov["cone_files"] = files
